@@ -2,6 +2,7 @@ pub mod c02;
 pub mod c03;
 pub mod c04;
 pub mod c05;
+pub mod c06;
 pub mod c07;
 pub mod c08;
 pub mod c09;
@@ -14,6 +15,7 @@ pub mod c15;
 pub mod c16;
 pub mod c17;
 pub mod c18;
+pub mod c19;
 pub mod c20;
 pub mod common;
 pub mod iff;
@@ -37,6 +39,7 @@ pub fn get(id: &str) -> Option<Box<dyn Check>> {
         "C03" => Some(Box::new(c03::C03)),
         "C04" => Some(Box::new(c04::C04)),
         "C05" => Some(Box::new(c05::C05)),
+        "C06" => Some(Box::new(c06::C06)),
         "C07" => Some(Box::new(c07::C07)),
         "C08" => Some(Box::new(c08::C08)),
         "C09" => Some(Box::new(c09::C09)),
@@ -49,6 +52,7 @@ pub fn get(id: &str) -> Option<Box<dyn Check>> {
         "C16" => Some(Box::new(c16::C16)),
         "C17" => Some(Box::new(c17::C17)),
         "C18" => Some(Box::new(c18::C18)),
+        "C19" => Some(Box::new(c19::C19)),
         "C20" => Some(Box::new(c20::C20)),
         _ => None,
     }
